@@ -126,6 +126,23 @@ class C15(Prop):
             out.append(('unless-expansion', lang.to_text(expand_unless(f))))
         return out
 
+    def unit_pairs(self, f, vseed):
+        """(label, sugar text, expansion text): the unless law with the bounds written with unit suffixes
+        (the same notation on both sides; period 1 s, default unit s)."""
+        import random
+        from rtverif.props.c08 import Speller
+        out = []
+        if 'unless' not in lang.ops_of(f):
+            return out
+        for mode in ('end-only', 'begin-only', 'both', 'same-suffix'):
+            try:
+                a = lang.to_text(f, ivl_printer=Speller(random.Random(vseed), 10 ** 9, 's', mode).ivl)
+                b = lang.to_text(expand_unless(f), ivl_printer=Speller(random.Random(vseed), 10 ** 9, 's', mode).ivl)
+            except ValueError:
+                continue
+            out.append(('unless-expansion-units:' + mode, a, b))
+        return out
+
     def judge(self, case):
         v = Verdict()
         f, data = case['formula'], case['data']
@@ -176,6 +193,18 @@ class C15(Prop):
                 if i is not None:
                     v.bad('variant-differs-online:' + label, 'variant [%s] %r gives %r at update %d, canonical %r '
                           'gives %r' % (label, vt, on[i], i, text, base_on[i]))
+        for label, sugar, expansion in self.unit_pairs(f, case.get('vseed', 0)):
+            v.info['variant:unless-expansion-units'] = v.info.get('variant:unless-expansion-units', 0) + 1
+            try:
+                a = drive.values(drive.dt_offline(sugar, names, data, n))
+                b = drive.values(drive.dt_offline(expansion, names, data, n))
+            except Exception as e:
+                v.bad('variant-raises:' + label, '%r / %r raised %s: %s' % (sugar, expansion, type(e).__name__, e))
+                continue
+            i = next((i for i in range(n) if exp[i] == exp[i] and not refd.same(a[i], b[i], rel)), None)
+            if i is not None:
+                v.bad('variant-differs:' + label.split(':')[0], '[%s] %r gives %r at sample %d but its expansion %r '
+                      'gives %r; data=%s' % (label, sugar, a[i], i, expansion, b[i], data))
         if all(g[1] is None for g in lang.walk(f)) and 'unless' not in ops:
             v.info['variant:ltl'] = 1
             try:
